@@ -587,3 +587,56 @@ def sampled(rng, count, max_nodes=12, weights=None):
             continue
         progs.append(body)
     return progs
+
+
+# ---------------------------------------------------------------------------------------------
+# C02: make evaluation points observable
+
+
+def effectify(body, rng, ctr, p=0.6):
+    """wrap yielded expressions, conditions, tags and post statements in rt.Eff(id, e) and put
+    effects around yields, so that *when* each expression is evaluated becomes visible"""
+
+    def eid():
+        ctr.e += 1
+        return 500 + ctr.e
+
+    def wrap(e):
+        if e is None or rng.random() > p:
+            return e
+        return "rt.Eff(%d, %s)" % (eid(), e)
+
+    def simple(s):
+        if s is None:
+            return None
+        if s[0] in ("yield",):
+            return ("yield", wrap(s[1]))
+        if s[0] in ("decl", "assign"):
+            return (s[0], s[1], wrap(s[2]))
+        return s
+
+    def rec(lst):
+        out = []
+        for s in lst:
+            k = s[0]
+            if k == "yield":
+                if rng.random() < p:
+                    out.append(("eff", eid()))
+                out.append(("yield", wrap(s[1])))
+                if rng.random() < p:
+                    out.append(("eff", eid()))
+            elif k in ("decl", "assign"):
+                out.append(simple(s))
+            elif k == "if":
+                out.append(("if", wrap(s[1]), rec(s[2]), rec(s[3]) if s[3] is not None else None))
+            elif k == "block":
+                out.append(("block", rec(s[1])))
+            elif k == "switch":
+                out.append(("switch", simple(s[1]), wrap(s[2]), [(v, rec(b)) for v, b in s[3]], rec(s[4]) if s[4] is not None else None))
+            elif k == "for":
+                out.append(("for", simple(s[1]), wrap(s[2]), simple(s[3]), rec(s[4])))
+            else:
+                out.append(s)
+        return out
+
+    return rec(body)
